@@ -8,25 +8,37 @@ theorem afterOK_cons_quiet (trig : CId → List Name) (e : Ev) (ev : List Ev) (h
     afterOK trig (e :: ev) = afterOK trig ev := by
   cases e <;> simp_all [afterOK]
 
-/-- node `n` changes its status from an unfinished one; the event `e` reports it if the new status is finished -/
+/-- node `n` changes its status from an unfinished one: either it is handed to execution (`None → run`, event
+    `start n`) or it gets its terminal report `e` -/
 theorem after_status {inp : Input} {s : Sys} {n : Name} {nd : Node} (h : AfterInv inp s) (hn : s.nodes n = some nd)
     (hu : nd.status.finished = false) (st' : RS) (e : Ev) (he : ∀ c, e ≠ Ev.creator c)
-    (hr : st'.finished = true → e.reports n = true) :
+    (hk : (e = Ev.start n ∧ nd.status = .none ∧ st' = .run) ∨
+          (st'.finished = true ∧ e.reports n = true ∧ (∀ m, e ≠ Ev.start m) ∧ ∀ m, e.reports m = true → m = n)) :
     AfterInv inp { setNode s n { nd with status := st' } with events := e :: s.events } := by
+  have hr : st'.finished = true → e.reports n = true := by
+    intro hf
+    rcases hk with ⟨_, _, h3⟩ | ⟨_, h2, _⟩
+    · subst h3; cases hf
+    · exact h2
   have hm : ∀ d, finOf s d = true →
       finOf { setNode s n { nd with status := st' } with events := e :: s.events } d = true := by
     intro d hd
     by_cases hdn : d = n
     · subst hdn; simp [finOf, stOf, hn, hu] at hd
     · simpa [finOf, stOf, setNode, hdn] using hd
+  have hst : stOf { setNode s n { nd with status := st' } with events := e :: s.events } = updSt (stOf s) n st' := by
+    funext d
+    show stOf (setNode s n { nd with status := st' }) d = _
+    rw [stOf_setNode]; rfl
+  have hsn : stOf s n = nd.status := by simp [stOf, hn]
   constructor
-  · intro k nd' hk
-    simp only [setNode] at hk
-    split at hk
-    · cases hk
+  · intro k nd' hk'
+    simp only [setNode] at hk'
+    split at hk'
+    · cases hk'
       obtain ⟨hb, ht⟩ := h.node n nd hn
       exact ⟨NodeB.mono (nd := { nd with status := st' }) ⟨hb.1, hb.2⟩ hm, ht⟩
-    · obtain ⟨hb, ht⟩ := h.node k nd' hk
+    · obtain ⟨hb, ht⟩ := h.node k nd' hk'
       exact ⟨hb.mono hm, ht⟩
   · exact h.tab
   · intro d hd
@@ -38,6 +50,10 @@ theorem after_status {inp : Input} {s : Sys} {n : Name} {nd : Node} (h : AfterIn
     · right; apply h.rep
       simpa [finOf, stOf, setNode, hdn] using hd
   · simp only []; rw [afterOK_cons_quiet _ _ _ he]; exact h.aft
+  · rw [hst]
+    rcases hk with ⟨h1, h2, h3⟩ | ⟨h1, _, h3, h4⟩
+    · subst h1; subst h3; exact h.cnt.start (by rw [hsn]; exact h2)
+    · exact h.cnt.report (by rw [hsn]; exact hu) h1 h3 h4
 
 theorem nodeB_pc {fin : Name → Bool} {nd : Node} (pc' : PC) (h : NodeB fin nd) (h1 : ¬ ∃ ds, nd.pc = .taskIter ds)
     (h2 : pc' = .loaderPc → nd.pend = [] ∧ nd.waitRun = []) : NodeB fin { nd with pc := pc' } := by
@@ -103,6 +119,8 @@ theorem AfterInv.setTasks {inp : Input} {s s' : Sys} (h : AfterInv inp s) (h3 : 
   · exact ht
   · intro d hd; rw [finOf_congr h4] at hd; rw [h3]; exact h.rep d hd
   · rw [h3]; exact h.aft
+  · have : stOf s' = stOf s := funext fun d => by simp [stOf, h4]
+    rw [this, h3]; exact h.cnt
 
 theorem after_regexBlock {inp : Input} {s : Sys} (l : LId) (g : GId) (h : AfterInv inp s) :
     AfterInv inp (regexBlock inp s l g) := by
@@ -178,9 +196,9 @@ theorem after_evalCreator {inp : Input} {s : Sys} {n : Name} {nd : Node} {l : LI
     exact Or.inr (h.rep d hd)
   unfold evalCreator
   cases hr : regTargets s.targets (targetPairs (inp.make (inp.creatorOf l) tname)) with
-  | none => exact ⟨⟨h.node, h.tab, hrep', haft⟩, hn⟩
+  | none => exact ⟨⟨h.node, h.tab, hrep', haft, h.cnt.creator _⟩, hn⟩
   | some tg =>
-    refine ⟨⟨h.node, ?_, hrep', haft⟩, hn⟩
+    refine ⟨⟨h.node, ?_, hrep', haft, h.cnt.creator _⟩, hn⟩
     intro k td hk l0 h0
     exact h.tab k td (insertNew_old _ _ _ _ _ _ _ hk h0) l0 h0
 
@@ -244,11 +262,21 @@ theorem after_handBack {inp : Input} {s s' : Sys} {n : Name} {perm : List Name} 
   · cases hb; exact h.congr rfl rfl rfl
   · exact after_feed h hb
 
+theorem reports_unique_unmet (n m : Name) : (Ev.unmet n).reports m = true → m = n := by
+  intro h; simpa [Ev.reports, eq_comm] using h
+theorem reports_unique_failure (n m : Name) : (Ev.failure n).reports m = true → m = n := by
+  intro h; simpa [Ev.reports, eq_comm] using h
+theorem reports_unique_success (n m : Name) : (Ev.success n).reports m = true → m = n := by
+  intro h; simpa [Ev.reports, eq_comm] using h
+theorem reports_unique_skip (n m : Name) : (Ev.skipUtd n).reports m = true → m = n := by
+  intro h; simpa [Ev.reports, eq_comm] using h
+
 theorem after_failSys {inp : Input} {s : Sys} {n : Name} {nd : Node} (h : AfterInv inp s) (hn : s.nodes n = some nd)
-    (hu : nd.status.finished = false) (e : Ev) (he : ∀ c, e ≠ Ev.creator c) (hr : e.reports n = true) (fin : Nat) :
+    (hu : nd.status.finished = false) (e : Ev) (he : ∀ c, e ≠ Ev.creator c) (hr : e.reports n = true)
+    (hs : ∀ m, e ≠ Ev.start m) (huq : ∀ m, e.reports m = true → m = n) (fin : Nat) :
     AfterInv inp (failSys inp s n nd e fin) := by
   unfold failSys
-  exact (after_status h hn hu .fail e he (fun _ => hr)).congr rfl rfl rfl
+  exact (after_status h hn hu .fail e he (Or.inr ⟨rfl, hr, hs, huq⟩)).congr rfl rfl rfl
 
 theorem after_selectStep {inp : Input} {s s' : Sys} {n : Name} {perm : List Name} (h : AfterInv inp s)
     (hs : selectStep inp s n perm = some s') : AfterInv inp s' := by
@@ -264,13 +292,15 @@ theorem after_selectStep {inp : Input} {s s' : Sys} {n : Name} {perm : List Name
         have : nd.status = .none := by simpa using hst
         rw [this]; rfl
       split at hs
-      · exact after_handBack (after_failSys h hn hu (.unmet n) (by intro c; simp) (by simp [Ev.reports]) 2) hs
+      · exact after_handBack (after_failSys h hn hu (.unmet n) (by intro c; simp) (by simp [Ev.reports])
+          (by intro m; simp) (reports_unique_unmet n) 2) hs
       · split at hs
         · refine after_handBack ?_ hs
-          exact (after_status h hn hu .utd (.skipUtd n) (by intro c; simp) (fun _ => by simp [Ev.reports])).congr
-            rfl rfl rfl
+          exact (after_status h hn hu .utd (.skipUtd n) (by intro c; simp)
+            (Or.inr ⟨rfl, by simp [Ev.reports], by intro m; simp, reports_unique_skip n⟩)).congr rfl rfl rfl
         · cases hs
-          exact (after_status h hn hu .run (.start n) (by intro c; simp) (fun e => by cases e)).congr rfl rfl rfl
+          have hnone : nd.status = .none := by simpa using hst
+          exact (after_status h hn hu .run (.start n) (by intro c; simp) (Or.inl ⟨rfl, hnone, rfl⟩)).congr rfl rfl rfl
 
 theorem after_finishStep {inp : Input} {s s' : Sys} {n : Name} {perm : List Name} (h : AfterInv inp s)
     (hs : finishStep inp s n perm = some s') : AfterInv inp s' := by
@@ -289,10 +319,11 @@ theorem after_finishStep {inp : Input} {s s' : Sys} {n : Name} {perm : List Name
         have qf : AfterInv inp { failSys inp s n nd (.failure n) (if s.final = 2 then 2 else 1) with
                                  running := s.running.filter (· ≠ n) } :=
           (after_failSys (inp := inp) h hn hu (.failure n) (by intro c; simp) (by simp [Ev.reports])
-            (if s.final = 2 then 2 else 1)).congr rfl rfl rfl
+            (by intro m; simp) (reports_unique_failure n) (if s.final = 2 then 2 else 1)).congr rfl rfl rfl
         have qs : AfterInv inp { setNode s n { nd with status := .ok } with
                                  events := Ev.success n :: s.events, running := s.running.filter (· ≠ n) } :=
-          (after_status h hn hu .ok (.success n) (by intro c; simp) (fun _ => by simp [Ev.reports])).congr rfl rfl rfl
+          (after_status h hn hu .ok (.success n) (by intro c; simp)
+            (Or.inr ⟨rfl, by simp [Ev.reports], by intro m; simp, reports_unique_success n⟩)).congr rfl rfl rfl
         split at hs
         · split at hs
           · exact after_feed qf hs
@@ -307,7 +338,9 @@ theorem after_finishStep {inp : Input} {s s' : Sys} {n : Name} {perm : List Name
 def TrigWF (inp : Input) : Prop := ∀ n td, lookup0 inp.tasks0 n = some td → TrigIn inp td
 
 theorem after_init {inp : Input} (wf : TrigWF inp) : AfterInv inp (init inp) :=
-  ⟨fun _ _ h => by simp [init] at h, wf, fun d hd => by simp [finOf, stOf, init, RS.finished] at hd, rfl⟩
+  ⟨fun _ _ h => by simp [init] at h, wf, fun d hd => by simp [finOf, stOf, init, RS.finished] at hd, rfl,
+   ⟨fun _ _ _ he => by simp [init] at he, fun _ _ _ he => by simp [init] at he, fun _ => by simp [init],
+    fun _ => by simp [init]⟩⟩
 
 theorem after_step {inp : Input} {s s' : Sys} {c : Choice} (h : AfterInv inp s) (hs : step inp s c = some s') :
     AfterInv inp s' := by
